@@ -9,7 +9,8 @@
    is [joinc cs] (names joined with '/'), and cs <> [] excludes the root itself.
    [walk t] = the list of Stat values passed to the callback of fs.Walk(ctx, "", fn), in order. *)
 From Coq Require Import List NArith Bool Sorting.Sorted Sorting.Permutation.
-From FS Require Import Sx Model.Path Model.Stat Model.Tree Model.Walk Proofs.Lex Proofs.PathP Proofs.WalkP Proofs.WalkHL Proofs.WalkSD.
+From FS Require Import Sx Model.Path Model.Stat Model.Tree Model.Walk Proofs.Lex Proofs.PathP Proofs.WalkP Proofs.WalkHL Proofs.WalkSD Proofs.WalkNest.
+From FS Require Glue.C09G Proofs.WalkNestGlue.
 Import ListNotations.
 Open Scope N_scope.
 
@@ -204,6 +205,88 @@ Theorem subdir_walk_at :
   ((forall d, In d ds -> sd_name d <> name) -> walk_subdirs ds target = Some ([], false)).
 Proof. exact subdir_walk_at_proof. Qed.
 
+(* SubDirFS, ANY target (also one whose first component is empty: "", "/", "/x").  With first / rest =
+   the target cut at its first separator (strings.Cut), the walk of proper sub-roots is, for the
+   sub-roots in name order, [sd_select first rest]: the block of the sub-root at rest (its Stat, then
+   its walk_at at rest, prefixed) if first is EMPTY or EQUALS its name, nothing otherwise; no error.
+   So "/x" walks x in every sub-root, and subdir_walk_at / subdir_walk_prefixed are instances. *)
+Theorem subdir_walk_any :
+  forall ds target, sd_wf ds ->
+  walk_subdirs ds target =
+  Some (flat_map (sd_select (fst (cut_sep target)) (snd (cut_sep target))) (isort_sd ds), false).
+Proof. exact subdir_walk_any_proof. Qed.
+
+(* Hard links in a SubDirFS walk of a sub-target (any first component; rest reduces to the non-empty
+   component list tc).  For the callback name/joinc(tc ++ c) of a non-directory of sub-root d: among
+   the non-directories of d AT OR BELOW tc sharing its inode there is a least one c0; Linkname is
+   empty if it is c0 itself, otherwise "name/" + path of c0 - never a path outside the walked
+   sub-tree or in another sub-root; a symlink keeps its (re-rooted) readlink target.  Same
+   hypotheses as walk_hardlinks, for the one sub-root. *)
+Theorem subdir_walk_at_hardlinks :
+  forall ds target, sd_wf ds ->
+  forall cbs err, walk_subdirs ds target = Some (cbs, err) ->
+  target_comps (snd (cut_sep target)) <> [] ->
+  forall d, In d ds -> one_fs (sd_tree d) -> ino_consistent (sd_tree d) ->
+  forall st c r,
+    In (sd_name d ++ sep :: joinc (target_comps (snd (cut_sep target)) ++ c), st) cbs ->
+    tree_at (sd_tree d) (target_comps (snd (cut_sep target)) ++ c) r -> is_dir r = false ->
+  st_path st = sd_name d ++ sep :: joinc (target_comps (snd (cut_sep target)) ++ c) /\
+  exists c0 r0,
+    tree_at (sd_tree d) (target_comps (snd (cut_sep target)) ++ c0) r0 /\ is_dir r0 = false /\
+    l_ino r0 = l_ino r /\ l_dev r0 = l_dev r /\
+    (forall c1 r1, tree_at (sd_tree d) (target_comps (snd (cut_sep target)) ++ c1) r1 ->
+                   is_dir r1 = false -> l_ino r1 = l_ino r ->
+                   c1 = c0 \/ compare_path (joinc (target_comps (snd (cut_sep target)) ++ c0))
+                                            (joinc (target_comps (snd (cut_sep target)) ++ c1)) = Lt) /\
+    st_linkname st =
+      (if is_symlink r then
+         (if is_abs (l_target r) then clean (sep :: sd_name d ++ sep :: l_target r) else l_target r)
+       else if bytes_eqb (joinc (target_comps (snd (cut_sep target)) ++ c0))
+                         (joinc (target_comps (snd (cut_sep target)) ++ c))
+            then [] else sd_name d ++ sep :: joinc (target_comps (snd (cut_sep target)) ++ c0)).
+Proof. exact subdir_walk_at_hardlinks_proof. Qed.
+
+(* NESTED composites: a SubDirFS with one sub-root (Stat ost, a directory Stat with a well-formed
+   name) whose FS is itself the SubDirFS over proper sub-roots [inner] whose Stats carry no Linkname.
+   [walk_nested] = both constructors + the outer subDirFS.Walk over the inner subDirFS.Walk; it is
+   the model that kind 0906 compares with the real code (nested_judge_model).
+   nested_walk_any: for EVERY target the walk is [nested_listing]: nothing if the target's first
+   component is neither empty nor the outer name; otherwise the outer Stat followed by the inner
+   listing for the remainder (subdir_walk_any) with the outer name put in front of every callback
+   path and prefix_stat applied a second time to every Stat ([nest_rewrite]); no error.
+   nested_walk_spec: the whole walk (target "") is the outer Stat followed by the prefixed inner
+   whole-walk listing (subdir_walk_prefixed), strictly ascending in protocol path order.
+   nested_parent_first: in it every entry outer/name/c is preceded by its parent. *)
+Theorem nested_walk_any :
+  forall ost inner target,
+  sd_wf inner -> no_linkname inner -> wf_name (st_path ost) -> st_is_dir ost = true ->
+  walk_nested ost inner target = Some (nested_listing ost inner target, false).
+Proof. exact nested_walk_any_proof. Qed.
+
+Theorem nested_walk_spec :
+  forall ost inner,
+  sd_wf inner -> no_linkname inner -> wf_name (st_path ost) -> st_is_dir ost = true ->
+  let listing := (st_path ost, ost) :: map (nest_rewrite (st_path ost)) (flat_map sd_block (isort_sd inner)) in
+  walk_nested ost inner [] = Some (listing, false)
+  /\ StronglySorted (fun p q => compare_path p q = Lt) (map fst listing).
+Proof. exact nested_walk_spec_proof. Qed.
+
+Theorem nested_parent_first :
+  forall ost inner,
+  sd_wf inner -> no_linkname inner -> wf_name (st_path ost) -> st_is_dir ost = true ->
+  let listing := (st_path ost, ost) :: map (nest_rewrite (st_path ost)) (flat_map sd_block (isort_sd inner)) in
+  forall d c r, In d inner -> tree_at (sd_tree d) c r ->
+  exists pre e post, listing = pre ++ e :: post /\ fst e = joinc (st_path ost :: sd_name d :: c)
+                     /\ In (joinc (removelast (st_path ost :: sd_name d :: c))) (map fst pre).
+Proof. exact nested_parent_first_proof. Qed.
+
+(* the model components of the verdicts of kinds 0902/0905 and 0906 are these model functions *)
+Theorem nested_judge_model :
+  forall ost zs target cbs err,
+  fst (C09G.nested_judge ost zs target cbs err)
+  = WalkNestGlue.enc_walk_result (walk_nested ost (map fst zs) target).
+Proof. exact WalkNestGlue.nested_judge_model_proof. Qed.
+
 (* The shared view model (Model/Tree.v, used by the other properties through MemFS): the canonical
    listing of a view whose sibling lists are strictly ascending bytewise, with non-empty
    separator-free names, is strictly ascending in protocol path order and has no duplicate path. *)
@@ -231,6 +314,12 @@ Print Assumptions walk_at_sub.
 Print Assumptions walk_at_hardlinks.
 Print Assumptions subdir_walk_hardlinks.
 Print Assumptions subdir_walk_at.
+Print Assumptions subdir_walk_any.
+Print Assumptions subdir_walk_at_hardlinks.
+Print Assumptions nested_walk_any.
+Print Assumptions nested_walk_spec.
+Print Assumptions nested_parent_first.
+Print Assumptions nested_judge_model.
 Print Assumptions subdir_walk_prefixed.
 Print Assumptions view_walk_sorted.
 Print Assumptions sorted_b_reflects.
@@ -336,6 +425,23 @@ Example ex_subdir_at :
     Some ([ [A; 45; B]; [A; 45; B; 47; A]; [A; 45; B; 47; A; 47; X]; [A; 45; B; 47; A; 47; Y] ], false)
   /\ walk_subdirs ds [A; 45] = Some ([], false)
   /\ option_map (fun x => length (fst x)) (walk_subdirs ds [A]) = Some 6%nat.
+Proof. vm_compute. repeat split; reflexivity. Qed.
+
+(* nested: outer "o" over the sub-roots "a" and "a-b" of ex_subdir_at.  Whole walk: o, o/a, o/a/a, ...;
+   the hard-link name and the absolute symlink target carry both prefixes; target "o/a-b/a" selects
+   one sub-tree; target "a" (the outer name missing) selects nothing *)
+Example ex_nested :
+  let inner := [ {| sd_stat := dstat [A]; sd_tree := ex_tree |};
+                 {| sd_stat := dstat [A; 45; B]; sd_tree := ex_tree |} ] in
+  option_map (fun x => (map (fun e => (fst e, st_linkname (snd e))) (firstn 7 (fst x)), length (fst x), snd x))
+             (walk_nested (dstat [111]) inner []) =
+    Some ([ ([111], []); ([111; 47; A], []); ([111; 47; A; 47; A], []); ([111; 47; A; 47; A; 47; X], []);
+            ([111; 47; A; 47; A; 47; Y], [47; 111; 47; A; 47; 116]); ([111; 47; A; 47; A; 32; B], []);
+            ([111; 47; A; 47; A; 45; B], [111; 47; A; 47; A; 47; X]) ], 13%nat, false)
+  /\ option_map (fun x => (map fst (fst x), snd x)) (walk_nested (dstat [111]) inner [111; 47; A; 45; B; 47; A]) =
+     Some ([ [111]; [111; 47; A; 45; B]; [111; 47; A; 45; B; 47; A]; [111; 47; A; 45; B; 47; A; 47; X];
+             [111; 47; A; 45; B; 47; A; 47; Y] ], false)
+  /\ walk_nested (dstat [111]) inner [A] = Some ([], false).
 Proof. vm_compute. repeat split; reflexivity. Qed.
 
 (* the refutation witness: the model reports m2/f and m2/g as links to m1/f *)
